@@ -65,6 +65,7 @@ func cmdRun(args []string) {
 	allowBlocked := fs.Bool("allowblocked", false, "blocked goroutines at quiescence are not a violation")
 	maxConc := fs.Int("maxconc", 64, "concretisation cap")
 	full := fs.Bool("full", false, "print full result")
+	noMerge := fs.Bool("nomerge", false, "disable if-merging")
 	fs.Parse(args)
 	prog, err := Load(LoadSpec{RepoDir: *repo, PkgDir: *pkg, HarnessSrcs: strings.Split(*harness, ",")})
 	if err != nil {
@@ -81,7 +82,7 @@ func cmdRun(args []string) {
 	}
 	cfg := &RunConfig{Entry: *entry, MaxSteps: *maxSteps, MaxPaths: *maxPaths, Workers: *workers, TimeoutS: *timeout,
 		SolverMs: *solverMs, Trace: *trace, SolverLog: *solverLog, MapOrderAll: *mapAll, MapOrderMax: 3, SchedAll: *schedAll,
-		Preempt: *preempt, Prefix: parsePrefix(*prefix), StopOnViolation: *stopv, AllowBlocked: *allowBlocked, MaxConcretize: *maxConc}
+		Preempt: *preempt, Prefix: parsePrefix(*prefix), StopOnViolation: *stopv, AllowBlocked: *allowBlocked, MaxConcretize: *maxConc, NoMerge: *noMerge}
 	if prog.entryFunc(*entry) == nil {
 		fmt.Println("no such entry function:", *entry)
 		os.Exit(3)
@@ -139,4 +140,8 @@ func printResult(res *RunResult, full bool) {
 	}
 }
 
-var defaultSummaries = []string{}
+var defaultSummaries = []string{
+	"(github.com/anacrolix/dht/v2/int160.T).Cmp",
+	"(*github.com/anacrolix/dht/v2/int160.T).IsZero",
+	"(*github.com/anacrolix/dht/v2/int160.T).BitLen",
+}
